@@ -767,6 +767,11 @@ def run_impl(case):
                 res = "keyerror"
             except AssertionError:
                 res = "assert"
+                try:
+                    list(m.all_resources())
+                except AssertionError:
+                    continue            # the dense-window asserts of the library (contents not a multiple of the ratio): the
+                                        # listing asserts in the same way (compared by the `all` query); nothing to look up
             emit(f"find {h} {rid}", res)
             try:
                 infos = [x for x in m.all_resources() if x.resource is objs[rid]]
